@@ -2,5 +2,6 @@
 # seeddetect.sh <ids...>: detection only (no re-verification) of already promoted seeds, in this snapshot
 cd "$(dirname "$0")/.."
 export VERIF_REPO=${VP_RUN_REPO:-/repo}
+if [ "$VERIF_REPO" = /repo ] && [ -z "$ALLOW_REPO" ]; then echo "refusing to patch /repo itself: use vp run --with-repo (or ALLOW_REPO=1)"; exit 2; fi
 ./check --setup > /dev/null 2>&1
 python3 tools/seedtest.py detect "$@" 2>&1 | tee detect.out
